@@ -2,7 +2,7 @@
    Graph level: Graph.toposort (Kahn + find_cycle) for EVERY presentation of a graph, i.e.
    for every iteration order the randomly seeded hash sets can produce.
    Proofs live in GraphProofs.v. *)
-From HclV Require Import Base Graph GraphSpec GraphProofs.
+From HclV Require Import Base Expr Machine Graph GraphSpec GraphProofs Build BuildSpec Generated LoopSpec LoopProofs.
 Open Scope N_scope.
 
 Section C10.
@@ -61,3 +61,66 @@ Example C10_ex1 :
   toposortN (mkGraph [4; 1; 0; 3; 2] [(1, [2]); (0, [3; 1]); (3, [4]); (2, [0])] 5) = Ok (inr [1; 2; 0]) /\
   toposortN (mkGraph [1; 3; 0; 2] [(1, [2]); (0, [2; 1]); (2, [3])] 4) = Ok (inl [0; 1; 2; 3]).
 Proof. vm_compute. repeat split; reflexivity. Qed.
+
+(* ---- program level (LoopSpec.v / LoopProofs.v): the same facts about Program::new, stated over
+   the statement list in the property's own vocabulary: `reads_directly` = an assignment mentions
+   the wire (register-bank outputs and constants excluded) or a built-in component in use leads
+   from the wire to its output; components without output and register banks contribute nothing *)
+Section C10_program.
+  Variable f : features.
+  Variable is_lower : string -> bool.
+  Variable is_upper : string -> bool.
+  Notation build := (build_program f gen_fixed is_lower is_upper).
+
+  (* the chain printed in the diagnostic is an actual cycle of the program: non-empty, each named
+     wire reads the previous one and the first reads the last; and it is the only diagnostic *)
+  Theorem C10_reported_chain_is_a_cycle_of_the_program :
+    forall stmts es c,
+      build stmts = Err es -> In (mkErr WireLoop c) es ->
+      es = [mkErr WireLoop c] /\ c <> [] /\ (wire_cycle gen_fixed stmts c \/ const_cycle stmts c).
+  Proof. exact (loop_report_is_real_holds f gen_fixed is_lower is_upper). Qed.
+
+  (* an accepted program has no wire and no constant that depends on itself *)
+  Theorem C10_accepted_program_is_acyclic :
+    forall stmts p, build stmts = Ok p ->
+      (forall w, ~ depends_on gen_fixed stmts w w) /\ (forall k, ~ const_depends_on stmts k k) /\
+      (forall c, ~ wire_cycle gen_fixed stmts c) /\ (forall c, ~ const_cycle stmts c).
+  Proof. exact (accepted_is_acyclic_holds f gen_fixed is_lower is_upper gen_fixed_distinct). Qed.
+
+  (* a program in which some wire depends on itself is rejected - with the circular-dependency
+     diagnostic, unless a pass that runs before the sorter has something to report (the kinds are
+     listed in LoopSpec.decl_diag / mid_diag; Panicked and OutOfFuel are not among them) *)
+  Theorem C10_cyclic_program_is_rejected :
+    stmt_cyclic_is_rejected_with_loop f gen_fixed is_lower is_upper.
+  Proof. exact (cyclic_is_rejected_with_loop_holds f gen_fixed is_lower is_upper). Qed.
+
+  (* exactly when the rejection is the circular-dependency diagnostic *)
+  Theorem C10_wire_loop_exact : stmt_wire_loop_exact f gen_fixed is_lower is_upper.
+  Proof. exact (wire_loop_exact_holds f gen_fixed is_lower is_upper). Qed.
+
+  (* once the builder gets as far as sorting, "rejected for circular dependency" and "some wire
+     depends on itself through a chain of assignments and combinational built-in paths" coincide *)
+  Theorem C10_wire_loop_iff_self_dependence :
+    forall stmts, reaches_wire_sort f gen_fixed is_lower is_upper stmts ->
+      ((exists c, build stmts = Err [mkErr WireLoop c] /\ wire_cycle gen_fixed stmts c) <->
+       (exists w, depends_on gen_fixed stmts w w)).
+  Proof. exact (wire_loop_iff_self_dependence_holds f gen_fixed is_lower is_upper gen_fixed_distinct). Qed.
+
+  (* constant definitions are treated the same way *)
+  Theorem C10_const_loop_iff_self_dependence :
+    stmt_const_loop_iff_self_dependence f gen_fixed is_lower is_upper.
+  Proof. exact (const_loop_iff_self_dependence_holds f gen_fixed is_lower is_upper). Qed.
+End C10_program.
+
+Print Assumptions C10_reported_chain_is_a_cycle_of_the_program.
+Print Assumptions C10_accepted_program_is_acyclic.
+Print Assumptions C10_cyclic_program_is_rejected.
+Print Assumptions C10_wire_loop_exact.
+Print Assumptions C10_wire_loop_iff_self_dependence.
+Print Assumptions C10_const_loop_iff_self_dependence.
+
+(* the "never count" clause and the three combinational built-in paths, computed on the compiled
+   table: feedback through a register bank / the register-file write port / the memory write
+   port is accepted; reg_srcA -> reg_outputA, pc -> i10bytes, mem_addr -> mem_output are loops *)
+Check ex_bank_accepted. Check ex_regwrite_accepted. Check ex_memwrite_accepted.
+Check ex_srcA_rejected. Check ex_pc_rejected. Check ex_mem_rejected. Check ex_const_rejected.
